@@ -196,18 +196,18 @@ SameData(a, b) == a.k = b.k /\ CASE a.k = "Schema" -> SameSchema(a, b) [] a.k = 
 (* first occurrence of each id, in order of first appearance *)
 FirstById(s) == Sel([i \in DOMAIN s |-> [r |-> s[i], first |-> ~\E j \in 1 .. i - 1 : s[j].id = s[i].id]], LAMBDA x : x.first)
 
-SummaryRepeatsExact(f, cfg) ==
-  LET flat == Flat(f)
-      ds == FirstById(Sel(flat, LAMBDA r : r.k = "Schema"))
-      dc == FirstById(Sel(flat, LAMBDA r : r.k = "Channel"))
-      ss == Sel(SummaryRecs(f), LAMBDA r : r.k = "Schema")
+(* ds, dc: the schema / channel definitions the producer registered, each once, in order of registration *)
+SummaryRepeatsOf(f, cfg, ds, dc) ==
+  LET ss == Sel(SummaryRecs(f), LAMBDA r : r.k = "Schema")
       sc == Sel(SummaryRecs(f), LAMBDA r : r.k = "Channel")
   IN /\ IF cfg.skipRepSchemas THEN ss = <<>>
         ELSE Len(ss) = Len(ds) /\ \A i \in DOMAIN ss : SameSchema(ss[i], ds[i].r)
      /\ IF cfg.skipRepChannels THEN sc = <<>>
         ELSE Len(sc) = Len(dc) /\ \A i \in DOMAIN sc : SameChannel(sc[i], dc[i].r)
+DataDefs(f, kind) == FirstById(Sel(Flat(f), LAMBDA r : r.k = kind))
+SummaryRepeatsExact(f, cfg) == SummaryRepeatsOf(f, cfg, DataDefs(f, "Schema"), DataDefs(f, "Channel"))
 
-IndexExactNames(f, cfg) ==
+IndexExactNamesR(f, cfg, ds, dc) ==
   << <<"ChunkTimes",     \A i \in KindIdx(f, "Chunk") : ChunkTimesExact(f.recs[i])>>,
      <<"MessageIndex",   \A i \in KindIdx(f, "Chunk") : MsgIndexExact(f, i, cfg)>>,
      <<"ChunkIndex",     ChunkIndexExact(f, cfg)>>,
@@ -215,8 +215,9 @@ IndexExactNames(f, cfg) ==
      <<"MetadataIndex",  MdIndexExact(f, cfg)>>,
      <<"SummaryOffsets", SummaryOffsetsExact(f, cfg)>>,
      <<"Footer",         FooterExact(f)>>,
-     <<"SummaryRepeats", SummaryRepeatsExact(f, cfg)>>,
+     <<"SummaryRepeats", SummaryRepeatsOf(f, cfg, ds, dc)>>,
      <<"DefinedBeforeUse", DefinedBeforeUse(f)>> >>
+IndexExactNames(f, cfg) == IndexExactNamesR(f, cfg, DataDefs(f, "Schema"), DataDefs(f, "Channel"))
 
 (* ---------------------------------------------------------------------- *)
 (* Checksums (C06): the ranges are named here; the harness hashed the range *)
@@ -244,10 +245,8 @@ Lookup(per, ch) == IF \E i \in DOMAIN per : per[i].ch = ch THEN per[CHOOSE i \in
 CountCh(msgs, ch) == Cardinality({i \in DOMAIN msgs : msgs[i].ch = ch})
 
 (* content = [data : Seq of Schema/Channel/Message, atts, mds] *)
-StatsNames(st, content, nchunks) ==
+StatsNamesR(st, content, nchunks, sids, cids) ==
   LET msgs == Sel(content.data, LAMBDA r : r.k = "Message")
-      sids == {r.id : r \in Range(Sel(content.data, LAMBDA r : r.k = "Schema"))}
-      cids == {r.id : r \in Range(Sel(content.data, LAMBDA r : r.k = "Channel"))}
       ts   == {m.log : m \in Range(msgs)} IN
   << <<"MessageCount",    st.msgs = Len(msgs)>>,
      <<"SchemaCount",     st.schemas = Cardinality(sids)>>,
@@ -258,6 +257,9 @@ StatsNames(st, content, nchunks) ==
      <<"ChannelMessageCounts", \A ch \in cids \cup {st.per[i].ch : i \in DOMAIN st.per} : Lookup(st.per, ch) = CountCh(msgs, ch)>>,
      <<"MessageStartTime", st.start = IF ts = {} THEN 0 ELSE MinOf(ts)>>,
      <<"MessageEndTime",   st.end = IF ts = {} THEN 0 ELSE MaxOf(ts)>> >>
+StatsNames(st, content, nchunks) ==
+  StatsNamesR(st, content, nchunks, {r.id : r \in Range(Sel(content.data, LAMBDA r : r.k = "Schema"))},
+                                    {r.id : r \in Range(Sel(content.data, LAMBDA r : r.k = "Channel"))})
 
 FileContent(f) == [data |-> Flat(f), atts |-> AttSeq(f), mds |-> MdSeq(f)]
 
